@@ -81,9 +81,10 @@ class TimeProxy(object):
         return getattr(_real_time, name)
 
 
-def make_datetime_proxy(clock):
+def make_datetime_proxy(clock, local_zone=False):
     """A stand-in for the ``datetime`` module whose ``datetime.utcnow/now``
-    read the simulated clock."""
+    read the simulated clock.  local_zone: naive local-time conversions use the
+    process time zone (which the caller has pinned via TZ + tzset) instead of UTC."""
 
     class SimDateTime(_real_datetime.datetime):
         @classmethod
@@ -92,13 +93,13 @@ def make_datetime_proxy(clock):
 
         @classmethod
         def now(cls, tz=None):
-            if tz is None:
+            if tz is None and not local_zone:
                 return cls.utcfromtimestamp(clock.read())  # TZ-independent on purpose
             return cls.fromtimestamp(clock.read(), tz)
 
         @classmethod
         def fromtimestamp(cls, ts, tz=None):
-            if tz is None:
+            if tz is None and not local_zone:
                 return cls.utcfromtimestamp(ts)  # TZ-independent on purpose
             return super(SimDateTime, cls).fromtimestamp(ts, tz)
 
